@@ -663,8 +663,18 @@ def run(chk, repo, tier):
                f'{tb.name} is defined; false for {falsy or "no type"}; {len(tests)} truth test(s)', tb.loc())
 
     def self_attrs(fn):
-        return {n.attr for n in ast.walk(fn.node) if isinstance(n, ast.Attribute)
-                and isinstance(n.value, ast.Name) and n.value.id == 'self'}
+        out = {n.attr for n in ast.walk(fn.node) if isinstance(n, ast.Attribute)
+               and isinstance(n.value, ast.Name) and n.value.id == 'self'}
+        # ... also when read through getattr(self, 'x') or a module-level operator.attrgetter('x')
+        for n in ast.walk(fn.node):
+            if isinstance(n, ast.Call) and n.args and isinstance(n.args[0], ast.Name) and n.args[0].id == 'self':
+                if isinstance(n.func, ast.Name) and n.func.id == 'getattr' and len(n.args) > 1 and isinstance(n.args[1], ast.Constant):
+                    out.add(n.args[1].value)
+                elif isinstance(n.func, ast.Name):
+                    g = fn.module.globals.get(n.func.id)
+                    if isinstance(g, ast.Call) and (dotted(g.func) or '').split('.')[-1] == 'attrgetter':
+                        out |= {a.value for a in g.args if isinstance(a, ast.Constant) and isinstance(a.value, str)}
+        return out
     eq, hs = pc.methods.get('__eq__'), pc.methods.get('__hash__')
     if eq is None or hs is None:
         chk.ob('C08-h', 'structural', 'ptype.PType', '__eq__/__hash__ pair', eq is None and hs is None,
